@@ -216,6 +216,9 @@ class Gen(object):
                 opts += ['cat']
             k = r.choice(opts)
             if k == 'lit':
+                if getattr(self, 'oddstrings', False) and r.random() < 0.3:
+                    # a backslash is an ordinary character of a string literal
+                    return Str(r.choice(['C:\\\\temp\\\\new', 'a\\\\n', 'C:\\dir', 'tab\\t', 'line\\n', 'end\\', '\\\\', '\\']))
                 return Str(r.choice(['', 'a', 'b', 'hello world', 'x y']))
             if k == 'var':
                 return V(r.choice(self.vars_of('str')))
